@@ -101,8 +101,8 @@ Proof. exact entity_mismatch_rejected. Qed.
 Print Assumptions c07_mismatch_rejected_entity.
 
 Theorem c07_mismatch_rejected_spec :
-  forall cfg h st ht nt h' st' ht' nt',
-    h <> h' -> load_entity cfg (EComp h st ht nt) (PComp h' st' ht' nt') = Err ESpecHash.
+  forall cfg h st ht nt hh lh h' st' ht' nt' hh' lh',
+    h <> h' -> load_entity cfg (EComp h st ht nt hh lh) (PComp h' st' ht' nt' hh' lh') = Err ESpecHash.
 Proof. exact spec_mismatch. Qed.
 Print Assumptions c07_mismatch_rejected_spec.
 
